@@ -953,3 +953,292 @@ theorem reach_inv3 {evs : List Ev} {s : CS} (h : runTrace init evs = some s) : I
   runTrace_inv3 evs h inv3_init
 
 end N2k.Client
+
+/-! ## the text clients' receive loop with the reader's line limit (C12): `feedLim` refines the byte-at-a-time automaton -/
+namespace N2k.Reader
+
+/-- nothing to do until more data arrives: no newline in the buffer and not more than `limit` bytes -/
+def Stable (limit : Nat) (st : LState) : Prop := 10 ∉ st.buf ∧ st.buf.length ≤ limit
+
+/-- code-shaped state vs automaton state: the same mode, and outside an overlong line the same line so far (inside one, how much of it the
+reader still holds depends on where the reads fell; it is dropped either way) -/
+def Rel (s a : LState) : Prop := s.skip = a.skip ∧ (s.skip = false → s.buf = a.buf)
+
+/-- the receive loop with the limit, without fuel: `skip` and the buffer -/
+def runLim (limit : Nat) (skip : Bool) (b : Bytes) : LState × List Bytes :=
+  match h : findNl b with
+  | none => if limit < b.length then ({ buf := [], skip := true }, []) else ({ buf := b, skip := skip }, [])
+  | some i =>
+    ((runLim limit false (b.drop (i + 1))).1,
+      if skip = false ∧ i ≤ limit then b.take (i + 1) :: (runLim limit false (b.drop (i + 1))).2
+      else (runLim limit false (b.drop (i + 1))).2)
+termination_by b.length
+decreasing_by all_goals (have := findNl_lt h; simp only [List.length_drop]; omega)
+
+theorem runLim_none {limit : Nat} {skip : Bool} {b : Bytes} (h : findNl b = none) :
+    runLim limit skip b
+      = if limit < b.length then ({ buf := [], skip := true }, []) else ({ buf := b, skip := skip }, []) := by
+  rw [runLim]; split <;> simp_all
+
+theorem runLim_some {limit : Nat} {skip : Bool} {b : Bytes} {i : Nat} (h : findNl b = some i) :
+    runLim limit skip b
+      = ((runLim limit false (b.drop (i + 1))).1,
+          if skip = false ∧ i ≤ limit then b.take (i + 1) :: (runLim limit false (b.drop (i + 1))).2
+          else (runLim limit false (b.drop (i + 1))).2) := by
+  rw [runLim]; split <;> simp_all
+
+theorem drainLim_nil (limit fuel : Nat) (k : Bool) (acc : List Bytes) :
+    drainLim limit fuel { buf := [], skip := k } acc = ({ buf := [], skip := k }, acc.reverse) := by
+  cases fuel <;> simp [drainLim, stepLim, findNl]
+
+theorem findNl_drop {b : Bytes} {i : Nat} (h : findNl b = some i) : findNl (b.drop i) = some 0 := by
+  induction b generalizing i with
+  | nil => simp [findNl] at h
+  | cons a rest ih =>
+    rw [findNl] at h
+    by_cases ha : a = 10
+    · rw [if_pos ha] at h; cases h; simp [findNl, ha]
+    · rw [if_neg ha] at h
+      cases hf : findNl rest with
+      | none => rw [hf] at h; cases h
+      | some j => rw [hf] at h; cases h; simpa using ih hf
+
+theorem drainLim_eq_run (limit fuel : Nat) (k : Bool) (b : Bytes) (acc : List Bytes) (h : b.length < fuel) :
+    drainLim limit fuel { buf := b, skip := k } acc
+      = ((runLim limit k b).1, acc.reverse ++ (runLim limit k b).2) := by
+  induction fuel generalizing b k acc with
+  | zero => omega
+  | succ n ih =>
+    rw [drainLim, stepLim]
+    cases hf : findNl b with
+    | none =>
+      simp only [runLim_none hf]
+      by_cases hl : limit < b.length
+      · simp [hl, drainLim_nil]
+      · simp [hl]
+    | some i =>
+      have hlt := findNl_lt hf
+      simp only [runLim_some hf]
+      by_cases hl : limit < i
+      · have h0 := findNl_drop hf
+        simp only [if_pos hl]
+        rw [ih _ _ _ (by simp only [List.length_drop]; omega), runLim_some h0]
+        simp [show ¬ i ≤ limit by omega]
+      · simp only [if_neg hl]
+        cases k with
+        | true => simp [ih _ _ _ (show (b.drop (i + 1)).length < n by simp only [List.length_drop]; omega)]
+        | false =>
+          simp [ih _ _ _ (show (b.drop (i + 1)).length < n by simp only [List.length_drop]; omega),
+            show i ≤ limit by omega]
+
+theorem feedLim_eq_run (limit : Nat) (s : LState) (data : Bytes) :
+    feedLim limit s data = runLim limit s.skip (s.buf ++ data) := by
+  unfold feedLim
+  simp only
+  rw [drainLim_eq_run _ _ _ _ _ (by omega)]
+  simp
+
+
+/-! the automaton -/
+
+theorem autoByte_acc (limit : Nat) (st : LState) (acc : List Bytes) (b : Nat) :
+    autoByte limit (st, acc) b
+      = ((autoByte limit (st, []) b).1, acc ++ (autoByte limit (st, []) b).2) := by
+  obtain ⟨buf, skip⟩ := st
+  by_cases hb : b = 10 <;> cases skip <;> by_cases hc : limit < buf.length + 1 <;> simp [autoByte, hb, hc]
+
+theorem foldl_autoByte_acc (limit : Nat) (st : LState) (acc : List Bytes) (data : Bytes) :
+    data.foldl (autoByte limit) (st, acc)
+      = ((autoRun limit st data).1, acc ++ (autoRun limit st data).2) := by
+  unfold autoRun
+  induction data generalizing st acc with
+  | nil => simp
+  | cons b rest ih =>
+    simp only [List.foldl_cons]
+    rw [autoByte_acc, ih, ih (autoByte limit (st, []) b).1 (autoByte limit (st, []) b).2]
+    simp
+
+theorem autoRun_nil (limit : Nat) (st : LState) : autoRun limit st [] = (st, []) := rfl
+
+theorem autoRun_cons (limit : Nat) (st : LState) (b : Nat) (rest : Bytes) :
+    autoRun limit st (b :: rest)
+      = ((autoRun limit (autoByte limit (st, []) b).1 rest).1,
+          (autoByte limit (st, []) b).2 ++ (autoRun limit (autoByte limit (st, []) b).1 rest).2) := by
+  conv => lhs; unfold autoRun
+  rw [List.foldl_cons, ← foldl_autoByte_acc]
+
+theorem autoRun_append (limit : Nat) (st : LState) (x y : Bytes) :
+    autoRun limit st (x ++ y)
+      = ((autoRun limit (autoRun limit st x).1 y).1,
+          (autoRun limit st x).2 ++ (autoRun limit (autoRun limit st x).1 y).2) := by
+  conv => lhs; unfold autoRun
+  rw [List.foldl_append, ← foldl_autoByte_acc]
+  rfl
+
+/-- a block without newline -/
+theorem autoRun_body (limit : Nat) (a : LState) (body : Bytes) (hb : 10 ∉ body) (hl : a.buf.length ≤ limit) :
+    autoRun limit a body
+      = (if a.skip then a
+          else if a.buf.length + body.length ≤ limit then { buf := a.buf ++ body, skip := false }
+          else { buf := [], skip := true }, []) := by
+  induction body generalizing a with
+  | nil =>
+    rw [autoRun_nil]
+    cases a with
+    | mk buf skip => cases skip <;> simp_all
+  | cons b rest ih =>
+    have hb10 : b ≠ 10 := fun h' => hb (by simp [h'])
+    have hr : 10 ∉ rest := fun h' => hb (by simp [h'])
+    rw [autoRun_cons]
+    cases a with
+    | mk buf skip =>
+      cases skip with
+      | true =>
+        have h1 : autoByte limit ({ buf := buf, skip := true }, []) b = ({ buf := buf, skip := true }, []) := by
+          simp [autoByte, hb10]
+        rw [h1, ih _ hr hl]; simp
+      | false =>
+        simp only [autoByte, if_neg hb10]
+        by_cases hc : limit < (buf ++ [b]).length
+        · simp only [Bool.false_eq_true, if_false, if_pos hc]
+          rw [ih _ hr (by simp)]
+          simp at hc
+          simp [show ¬ buf.length + (rest.length + 1) ≤ limit by omega]
+        · simp only [Bool.false_eq_true, if_false, if_neg hc]
+          rw [ih _ hr (by simpa using hc)]
+          simp at hc
+          by_cases h2 : buf.length + (rest.length + 1) ≤ limit
+          · simp [h2, show buf.length + 1 + rest.length ≤ limit by omega]
+          · simp [h2, show ¬ buf.length + 1 + rest.length ≤ limit by omega]
+
+/-- a whole line -/
+theorem autoRun_line (limit : Nat) (a : LState) (body : Bytes) (hb : 10 ∉ body) (hl : a.buf.length ≤ limit) :
+    autoRun limit a (body ++ [10])
+      = ({ buf := [], skip := false },
+          if a.skip = false ∧ a.buf.length + body.length ≤ limit then [a.buf ++ body ++ [10]] else []) := by
+  rw [autoRun_append, autoRun_body limit a body hb hl]
+  cases a with
+  | mk buf skip =>
+    cases skip with
+    | true => simp [autoRun_cons, autoRun_nil, autoByte]
+    | false =>
+      by_cases h2 : buf.length + body.length ≤ limit
+      · simp [h2, autoRun_cons, autoRun_nil, autoByte]
+      · simp [h2, autoRun_cons, autoRun_nil, autoByte]
+
+
+/-! the receive loop refines the automaton -/
+
+theorem split_first_nl (data : Bytes) :
+    10 ∉ data ∨ ∃ body rest, data = body ++ 10 :: rest ∧ 10 ∉ body := by
+  induction data with
+  | nil => simp
+  | cons x xs ih =>
+    by_cases hx : x = 10
+    · exact .inr ⟨[], xs, by simp [hx], by simp⟩
+    · rcases ih with h | ⟨body, rest, rfl, hb⟩
+      · exact .inl (by simp [h]; exact fun h' => hx h'.symm)
+      · exact .inr ⟨x :: body, rest, by simp, by simp [hb]; exact fun h' => hx h'.symm⟩
+
+theorem runLim_refines (limit : Nat) (s a : LState) (data : Bytes) (hr : Rel s a) (hs : Stable limit s)
+    (ha : Stable limit a) :
+    (runLim limit s.skip (s.buf ++ data)).2 = (autoRun limit a data).2 ∧
+    Rel (runLim limit s.skip (s.buf ++ data)).1 (autoRun limit a data).1 ∧
+    Stable limit (runLim limit s.skip (s.buf ++ data)).1 ∧ Stable limit (autoRun limit a data).1 := by
+  induction hn : data.length using Nat.strongRecOn generalizing s a data with
+  | _ n ih =>
+    obtain ⟨sb, sk⟩ := s
+    obtain ⟨ab, ak⟩ := a
+    obtain ⟨hk, hbuf⟩ := hr
+    obtain ⟨hs1, hs2⟩ := hs
+    obtain ⟨ha1, ha2⟩ := ha
+    simp only at hk hbuf hs1 hs2 ha1 ha2
+    subst hk
+    rcases split_first_nl data with hd | ⟨body, rest, rfl, hb⟩
+    · have hf : findNl (sb ++ data) = none := findNl_eq_none.2 (by simp [hs1, hd])
+      rw [runLim_none hf, autoRun_body limit _ data hd ha2]
+      cases sk with
+      | true =>
+        by_cases hl : limit < (sb ++ data).length
+        · simp only [List.length_append] at hl
+          simp [hl, Rel, Stable, ha1, ha2]
+        · simp only [List.length_append] at hl
+          simp [hl, Rel, Stable, ha1, ha2, hs1, hd]; omega
+      | false =>
+        obtain rfl := hbuf rfl
+        by_cases hl : limit < (sb ++ data).length
+        · simp only [List.length_append] at hl
+          simp [hl, Rel, Stable, show ¬ sb.length + data.length ≤ limit by omega]
+        · simp only [List.length_append] at hl
+          simp [hl, Rel, Stable, hs1, hd, show sb.length + data.length ≤ limit by omega]
+    · have hf : findNl (sb ++ (body ++ 10 :: rest)) = some (sb ++ body).length := by
+        rw [← List.append_assoc]; exact findNl_body rest (by simp [hs1, hb])
+      have hdrop : (sb ++ (body ++ 10 :: rest)).drop ((sb ++ body).length + 1) = rest := by
+        rw [show sb ++ (body ++ 10 :: rest) = (sb ++ body ++ [10]) ++ rest by simp]
+        exact List.drop_left' (by simp; omega)
+      have htake : (sb ++ (body ++ 10 :: rest)).take ((sb ++ body).length + 1) = sb ++ body ++ [10] := by
+        rw [show sb ++ (body ++ 10 :: rest) = (sb ++ body ++ [10]) ++ rest by simp]
+        exact List.take_left' (by simp; omega)
+      have hrec := ih rest.length (by subst hn; simp; omega) { buf := [], skip := false } { buf := [], skip := false }
+        rest ⟨rfl, fun _ => rfl⟩ ⟨by simp, by simp⟩ ⟨by simp, by simp⟩ rfl
+      simp only [List.nil_append] at hrec
+      obtain ⟨h1, h2, h3, h4⟩ := hrec
+      rw [runLim_some hf, hdrop, htake,
+        show body ++ 10 :: rest = (body ++ [10]) ++ rest by simp, autoRun_append,
+        autoRun_line limit _ body hb ha2]
+      refine ⟨?_, h2, h3, h4⟩
+      simp only
+      rw [h1]
+      cases sk with
+      | true => simp
+      | false =>
+        obtain rfl := hbuf rfl
+        by_cases hl : sb.length + body.length ≤ limit
+        · simp [hl]
+        · simp [hl]
+
+theorem feedLim_refines (limit : Nat) (s a : LState) (data : Bytes) (hr : Rel s a) (hs : Stable limit s)
+    (ha : Stable limit a) :
+    (feedLim limit s data).2 = (autoRun limit a data).2 ∧
+    Rel (feedLim limit s data).1 (autoRun limit a data).1 ∧
+    Stable limit (feedLim limit s data).1 ∧ Stable limit (autoRun limit a data).1 := by
+  rw [feedLim_eq_run]
+  exact runLim_refines limit s a data hr hs ha
+
+theorem feedAllLim_cons (limit : Nat) (st : LState) (d : Bytes) (ds : List Bytes) :
+    feedAllLim limit st (d :: ds)
+      = ((feedAllLim limit (feedLim limit st d).1 ds).1,
+          (feedLim limit st d).2 ++ (feedAllLim limit (feedLim limit st d).1 ds).2) := by
+  simp [feedAllLim]
+
+theorem feedAllLim_refines (limit : Nat) (s a : LState) (reads : List Bytes) (hr : Rel s a)
+    (hs : Stable limit s) (ha : Stable limit a) :
+    (feedAllLim limit s reads).2 = (autoRun limit a reads.flatten).2 := by
+  induction reads generalizing s a with
+  | nil => simp [feedAllLim, autoRun_nil]
+  | cons d ds ih =>
+    obtain ⟨h1, h2, h3, h4⟩ := feedLim_refines limit s a d hr hs ha
+    rw [feedAllLim_cons, List.flatten_cons, autoRun_append, ih _ _ h2 h3 h4, h1]
+
+theorem feedAllLim_auto (limit : Nat) (reads : List Bytes) :
+    (feedAllLim limit {} reads).2 = (autoRun limit {} reads.flatten).2 :=
+  feedAllLim_refines limit {} {} reads ⟨rfl, fun _ => rfl⟩ ⟨by simp, by simp⟩ ⟨by simp, by simp⟩
+
+theorem autoRun_lines (limit : Nat) (ls : List Bytes) (tail : Bytes)
+    (hl : ∀ l ∈ ls, ∃ body, l = body ++ [10] ∧ 10 ∉ body) (ht : 10 ∉ tail) :
+    (autoRun limit {} (ls.flatten ++ tail)).2 = ls.filter (fun l => l.length ≤ limit + 1) := by
+  induction ls with
+  | nil =>
+    rw [List.flatten_nil, List.nil_append, autoRun_body limit {} tail ht (by simp)]
+    simp
+  | cons l ls ih =>
+    obtain ⟨body, rfl, hb⟩ := hl l (by simp)
+    have ih' := ih (fun q hq => hl q (by simp [hq]))
+    rw [List.flatten_cons, List.append_assoc, autoRun_append, autoRun_line limit {} body hb (by simp)]
+    simp only
+    rw [show ({ buf := [], skip := false } : LState) = {} from rfl, ih', List.filter_cons]
+    by_cases h2 : body.length ≤ limit
+    · simp [h2]
+    · simp [h2]
+
+end N2k.Reader
